@@ -284,6 +284,8 @@ type symExec struct {
 	inline func(callee types.Object) *ast.FuncDecl
 	loopK  []string
 	undec  []string
+	onCall func(s *symExec, call *ast.CallExpr, callee types.Object) // observes a call in the current environment
+	onIndex func(s *symExec, ix *ast.IndexExpr, base, index *Poly)     // observes an element read
 }
 
 func (c *Ctx) newSymExec(p *packages.Package) *symExec {
@@ -386,7 +388,11 @@ func (s *symExec) expr(e ast.Expr) *Poly {
 		}
 		return polyAtom("lit{" + strings.Join(parts, ";") + "}")
 	case *ast.IndexExpr:
-		return polyAtom("idx(" + s.expr(x.X).String() + "," + s.expr(x.Index).String() + ")")
+		bp, ip := s.expr(x.X), s.expr(x.Index)
+		if s.onIndex != nil {
+			s.onIndex(s, x, bp, ip)
+		}
+		return polyAtom("idx(" + bp.String() + "," + ip.String() + ")")
 	case *ast.SelectorExpr:
 		if obj, ok := info.Uses[x.Sel]; ok {
 			if _, isVar := obj.(*types.Var); isVar && obj.Pkg() != nil && obj.Parent() == obj.Pkg().Scope() {
@@ -396,6 +402,15 @@ func (s *symExec) expr(e ast.Expr) *Poly {
 		return polyAtom("fld(" + s.expr(x.X).String() + "," + x.Sel.Name + ")")
 	case *ast.StarExpr:
 		return s.expr(x.X)
+	case *ast.SliceExpr:
+		lo, hi := "", ""
+		if x.Low != nil {
+			lo = s.expr(x.Low).String()
+		}
+		if x.High != nil {
+			hi = s.expr(x.High).String()
+		}
+		return polyAtom("slice(" + s.expr(x.X).String() + "," + lo + ":" + hi + ")")
 	case *ast.CallExpr:
 		if ftv, ok := info.Types[x.Fun]; ok && ftv.IsType() && len(x.Args) == 1 {
 			// numeric conversion: transparent in the term (int division vs float division is kept in the div atom)
@@ -407,6 +422,9 @@ func (s *symExec) expr(e ast.Expr) *Poly {
 			return s.expr(x.Args[0])
 		}
 		callee := typeutil.Callee(info, x)
+		if s.onCall != nil {
+			s.onCall(s, x, callee)
+		}
 		if b, ok := callee.(*types.Builtin); ok && b.Name() == "len" {
 			return polyAtom("len(" + s.expr(x.Args[0]).String() + ")")
 		}
@@ -545,6 +563,27 @@ func (s *symExec) cond(e ast.Expr) symCond {
 		}
 	}
 	return symCond{text: s.expr(e).String()}
+}
+
+// pushCond records that e holds (neg=false) or fails (neg=true), splitting conjunctions / negated disjunctions.
+func (s *symExec) pushCond(e ast.Expr, neg bool) {
+	e = ast.Unparen(e)
+	if u, ok := e.(*ast.UnaryExpr); ok && u.Op == token.NOT {
+		s.pushCond(u.X, !neg)
+		return
+	}
+	if be, ok := e.(*ast.BinaryExpr); ok {
+		if (be.Op == token.LAND && !neg) || (be.Op == token.LOR && neg) {
+			s.pushCond(be.X, neg)
+			s.pushCond(be.Y, neg)
+			return
+		}
+	}
+	c := s.cond(e)
+	if neg {
+		c = negCond(c)
+	}
+	s.conds = append(s.conds, c)
 }
 
 func negCond(c symCond) symCond {
@@ -729,7 +768,7 @@ func (s *symExec) stmt(st ast.Stmt) {
 		c := s.cond(x.Cond)
 		before := s.copyEnv()
 		n0 := len(s.conds)
-		s.conds = append(s.conds, c)
+		s.pushCond(x.Cond, false)
 		s.block(x.Body.List)
 		s.conds = s.conds[:n0]
 		thenEnv := s.env
@@ -739,7 +778,7 @@ func (s *symExec) stmt(st ast.Stmt) {
 		elseEnv := s.copyEnv()
 		if x.Else != nil {
 			s.env = elseEnv
-			s.conds = append(s.conds, negCond(c))
+			s.pushCond(x.Cond, true)
 			s.stmt(x.Else)
 			s.conds = s.conds[:n0]
 			elseEnv = s.env
@@ -755,11 +794,11 @@ func (s *symExec) stmt(st ast.Stmt) {
 			s.env = elseEnv
 		case thenTerm:
 			s.env = elseEnv
-			s.conds = append(s.conds, negCond(c)) // the rest of the sequence runs under !c
+			s.pushCond(x.Cond, true) // the rest of the sequence runs under !c
 			// note: conds pushed here are popped by the enclosing construct restoring its own length
 		case elseTerm:
 			s.env = thenEnv
-			s.conds = append(s.conds, c)
+			s.pushCond(x.Cond, false)
 		default:
 			merged := map[types.Object]*Poly{}
 			keys := map[types.Object]bool{}
@@ -882,8 +921,52 @@ func (s *symExec) forStmt(x *ast.ForStmt) {
 		step *Poly
 	}
 	var steps []step
+	// body-level accumulators: a top-level `v += d` / `v -= d` that is the only assignment to v in the loop, in a body
+	// without `continue`, runs exactly once per iteration: v = init + K*d at the top of iteration K.
+	type bodyAcc struct {
+		obj  types.Object
+		init *Poly
+		st   *ast.AssignStmt
+	}
+	var accs []bodyAcc
+	keep := map[types.Object]bool{}
+	if !hasContinue(x.Body) {
+		for _, bs := range x.Body.List {
+			as, ok := bs.(*ast.AssignStmt)
+			if !ok || len(as.Lhs) != 1 || (as.Tok != token.ADD_ASSIGN && as.Tok != token.SUB_ASSIGN) {
+				continue
+			}
+			obj := s.assignObj(as.Lhs[0])
+			if obj == nil || !isIntT(obj.Type()) || countAssigns(s, x.Body, obj) != 1 || (x.Post != nil && assignedIn(s.p, x.Post, obj)) {
+				continue
+			}
+			if !s.loopInvariant(as.Rhs[0], x) {
+				continue
+			}
+			accs = append(accs, bodyAcc{obj, s.atomFor(obj), as})
+			keep[obj] = true
+		}
+	}
 	// havoc everything assigned in the body
-	s.havocAssigned(x.Body, nil)
+	s.havocAssigned(x.Body, keep)
+	for _, a := range accs {
+		// evaluate the step silently (no hooks, no call log): the statement itself is lifted again in the body
+		oc, oi, nc := s.onCall, s.onIndex, len(s.calls)
+		s.onCall, s.onIndex = nil, nil
+		d := s.expr(a.st.Rhs[0])
+		s.onCall, s.onIndex = oc, oi
+		s.calls = s.calls[:nc]
+		if strings.Contains(d.String(), "loop:") {
+			// loop-variant step: not an arithmetic progression
+			s.env[a.obj] = s.freshAtom("loop:" + a.obj.Name())
+			continue
+		}
+		if a.st.Tok == token.SUB_ASSIGN {
+			d = d.neg()
+		}
+		s.env[a.obj] = a.init.add(K.mul(d))
+		ind[a.obj] = true
+	}
 	if post != nil {
 		switch ps := post.(type) {
 		case *ast.IncDecStmt:
@@ -937,6 +1020,78 @@ func (s *symExec) forStmt(x *ast.ForStmt) {
 	for obj := range ind {
 		s.env[obj] = s.freshAtom("after:" + obj.Name())
 	}
+}
+
+// loopInvariant: e is built from literals, selectors and variables neither declared nor assigned inside the loop.
+func (s *symExec) loopInvariant(e ast.Expr, loop *ast.ForStmt) bool {
+	ok := true
+	ast.Inspect(e, func(n ast.Node) bool {
+		switch x := n.(type) {
+		case *ast.CallExpr, *ast.IndexExpr, *ast.SliceExpr, *ast.StarExpr, *ast.FuncLit, *ast.TypeAssertExpr:
+			ok = false
+		case *ast.Ident:
+			obj := s.p.TypesInfo.Uses[x]
+			if v, isVar := obj.(*types.Var); isVar && !v.IsField() {
+				if (v.Pos() >= loop.Pos() && v.Pos() < loop.End()) || assignedIn(s.p, loop.Body, v) || (loop.Post != nil && assignedIn(s.p, loop.Post, v)) {
+					ok = false
+				}
+			}
+		}
+		return ok
+	})
+	return ok
+}
+
+// hasContinue reports a `continue` belonging to this loop body (not to a nested loop).
+func hasContinue(body *ast.BlockStmt) bool {
+	found := false
+	var walk func(n ast.Node) bool
+	walk = func(n ast.Node) bool {
+		switch x := n.(type) {
+		case *ast.ForStmt, *ast.RangeStmt, *ast.FuncLit:
+			return false
+		case *ast.BranchStmt:
+			if x.Tok == token.CONTINUE || x.Tok == token.GOTO {
+				found = true
+			}
+		}
+		return true
+	}
+	ast.Inspect(body, walk)
+	// a labelled continue inside a nested loop may target this loop
+	ast.Inspect(body, func(n ast.Node) bool {
+		if b, ok := n.(*ast.BranchStmt); ok && b.Label != nil && b.Tok == token.CONTINUE {
+			found = true
+		}
+		return true
+	})
+	return found
+}
+
+func countAssigns(s *symExec, body ast.Node, obj types.Object) int {
+	n := 0
+	ast.Inspect(body, func(nd ast.Node) bool {
+		switch x := nd.(type) {
+		case *ast.AssignStmt:
+			for _, l := range x.Lhs {
+				if s.assignObj(l) == obj {
+					n++
+				}
+			}
+		case *ast.IncDecStmt:
+			if s.assignObj(x.X) == obj {
+				n++
+			}
+		case *ast.UnaryExpr:
+			if x.Op == token.AND {
+				if s.assignObj(x.X) == obj {
+					n += 2 // address taken: not a plain accumulator
+				}
+			}
+		}
+		return true
+	})
+	return n
 }
 
 // symFunc lifts a whole function body.
